@@ -428,11 +428,11 @@ func checkC20(c C20Case, o *Obs) error {
 	return nil
 }
 
-func entriesToMatrix(es []MatEntry) (align.SubstitutionMatrix, bool) {
+func entriesToMatrix(es []MatEntry, allowInf bool) (align.SubstitutionMatrix, bool) {
 	m := align.SubstitutionMatrix{}
 	for _, e := range es {
 		v := float64(e.V)
-		if math.IsNaN(v) || math.IsInf(v, 0) || e.A < 0 || e.A > 255 || e.B < 0 || e.B > 255 {
+		if math.IsNaN(v) || (math.IsInf(v, 0) && !allowInf) || e.A < 0 || e.A > 255 || e.B < 0 || e.B > 255 {
 			return nil, false
 		}
 		m[[2]byte{byte(e.A), byte(e.B)}] = v
@@ -441,7 +441,7 @@ func entriesToMatrix(es []MatEntry) (align.SubstitutionMatrix, bool) {
 }
 
 func checkSymmetrical(c C20Case, o *Obs) error {
-	m, ok := entriesToMatrix(c.Entries)
+	m, ok := entriesToMatrix(c.Entries, true)
 	if !ok {
 		return nil
 	}
@@ -562,7 +562,7 @@ func evalScore(e ast.Expr) (float64, error) {
 }
 
 func checkGoString(c C20Case, o *Obs) error {
-	m, ok := entriesToMatrix(c.Entries)
+	m, ok := entriesToMatrix(c.Entries, false)
 	if !ok {
 		return nil
 	}
@@ -737,6 +737,19 @@ func exhaustiveC20(thorough bool, emit func(C20Case) bool) {
 			if !emit(C20Case{Kind: "sym", Entries: []MatEntry{{A: 'a', B: 'b', V: gen.F(v)}, {A: 'b', B: 'a', V: gen.F(w)}, {A: 'c', B: 'c', V: 1}}}) {
 				return
 			}
+		}
+	}
+	// infinite scores (a table may say "-inf" to forbid a pair): equal infinities are equal scores
+	inf := math.Inf(1)
+	for _, es := range [][]MatEntry{
+		{{A: 'a', B: 'b', V: gen.F(inf)}, {A: 'b', B: 'a', V: gen.F(inf)}},
+		{{A: 'a', B: 'b', V: gen.F(-inf)}, {A: 'b', B: 'a', V: gen.F(-inf)}, {A: 'a', B: 'a', V: 1}},
+		{{A: 'a', B: 'b', V: gen.F(inf)}, {A: 'b', B: 'a', V: gen.F(-inf)}},
+		{{A: 'a', B: 'b', V: gen.F(-inf)}, {A: 'b', B: 'a', V: -4}},
+		{{A: 'a', B: 255, V: gen.F(-inf)}, {A: 255, B: 'a', V: gen.F(-inf)}, {A: 'b', B: 255, V: -1}},
+	} {
+		if !emit(C20Case{Kind: "sym", Entries: es}) {
+			return
 		}
 	}
 	// GoString with every byte value as a key and assorted scores
